@@ -781,16 +781,20 @@ class Epoch(object):
             raise ValueError("Invalid input data")
         day = int(dd)
         frac = dd % 1
-        if yyyy >= 1:  # datetime's minimum year is 1
-            try:
-                d = datetime.date(yyyy, mm, day)
-            except ValueError:
-                raise ValueError("Invalid input date")
-            doy = d.timetuple().tm_yday
-        else:
-            k = 2 if Epoch.is_leap(yyyy) else 1
-            doy = (iint((275.0 * mm) / 9.0)
-                   - k * iint((mm + 9.0) / 12.0) + day - 30.0)
+        # Check the day against the length of the month, with the leap rule of
+        # the calendar in force (Julian up to 1582, Gregorian afterwards)
+        maxdays = [31, 28, 31, 30, 31, 30, 31, 31, 30, 31, 30, 31]
+        if Epoch.is_leap(yyyy):
+            maxdays[1] = 29
+        if day > maxdays[int(mm) - 1]:
+            raise ValueError("Invalid input date")
+        # Meeus' formula: K is 1 for leap years and 2 for common years
+        k = 1 if Epoch.is_leap(yyyy) else 2
+        doy = (iint((275.0 * mm) / 9.0)
+               - k * iint((mm + 9.0) / 12.0) + day - 30.0)
+        # In 1582, October 4th was followed by October 15th
+        if yyyy == 1582 and (mm > 10 or (mm == 10 and day > 4)):
+            doy -= 10.0
         return float(doy + frac)
 
     def doy(self):
